@@ -165,3 +165,115 @@ pub fn run(o: &Opts, out: &mut dyn Write) {
         emit(out, &nm, ua);
     }
 }
+
+// ---------------------------------------------------------------- oracle
+// Implementation-side metamorphic relations of C16/C15 (never stronger than
+// the property). Output: `O<TAB>ok|<signature><TAB>detail`.
+
+fn o(out: &mut dyn Write, sig: &str, detail: String) {
+    writeln!(out, "O\t{}\t{}", sig, detail).unwrap();
+}
+
+fn clean_base(rng: &mut Rng) -> Vec<u8> {
+    // stem of letters/digits, then 0-3 components from the word lists; no junk
+    let stems: &[&str] = &["a", "foo", "host1", "log_media", "media_log", "system@0005", "user-1000", "x86"];
+    let st: &str = rng.pick(stems);
+    let mut name = recase(rng, st);
+    for _ in 0..rng.below(4) {
+        name.push(b'.');
+        let w: &str = match rng.below(10) {
+            0..=3 => rng.pick(TYPE_WORDS),
+            4..=5 => rng.pick(COMPRESS),
+            6 => rng.pick(NONLOG),
+            _ => rng.pick(&["old", "bak", "1", "20230101", "x", "tmp", "0"]),
+        };
+        name.extend(recase(rng, w));
+    }
+    name
+}
+
+pub fn oracle(op: &Opts, out: &mut dyn Write) {
+    quiet_panics();
+    let mut rng = Rng::new(op.seed ^ 0x5151);
+    let cls = |n: &[u8], ua: bool| classify_impl(n, ua, false);
+    for i in 0..op.n {
+        let b = if i % 5 == 4 { gen_valid(&mut rng) } else { clean_base(&mut rng) };
+        let ua = rng.chance(1, 2);
+        let base = cls(&b, ua);
+        let h = hex(&b);
+        // no panic, ever
+        if base.starts_with("panic") {
+            o(out, "panic", format!("{} {}", h, base));
+            continue;
+        }
+        // dir independence
+        for d in ["x.journal", "y.gz", "plain"] {
+            let mut p = PathBuf::from(d);
+            p.push(OsStr::from_bytes(&b));
+            if b.is_empty() || b == b"." || b == b".." { continue; }
+            let r = match guarded(move || path_to_filetype(&p, ua)) { Ok(r) => canon(r), Err(m) => format!("panic {}", m) };
+            if r != base { o(out, "dir-dependent", format!("{} ua={} alone={} in {}={}", h, ua, base, d, r)); } else { o(out, "ok", String::new()); }
+        }
+        // explicit always / same type
+        let rt = cls(&b, true);
+        let rf = cls(&b, false);
+        if rt == "Unparsable" { o(out, "explicit-unparsable", h.clone()); } else { o(out, "ok", String::new()); }
+        if rf != "Unparsable" && rf != rt { o(out, "walk-vs-named-type", format!("{} {} {}", h, rf, rt)); } else { o(out, "ok", String::new()); }
+        if i % 5 == 4 || b.is_empty() { continue; }
+        // rotation suffixes
+        for k in ["1", "20230101", "old", "BAK", "99999999999"] {
+            let mut n2 = b.clone(); n2.push(b'.'); n2.extend(k.as_bytes());
+            let r = cls(&n2, ua);
+            if r != base { o(out, "rotation", format!("{} +.{} {} vs {}", h, k, r, base)); } else { o(out, "ok", String::new()); }
+        }
+        // letter case
+        let up = b.to_ascii_uppercase();
+        let lo = b.to_ascii_lowercase();
+        if cls(&up, ua) != base || cls(&lo, ua) != base { o(out, "case", format!("{} {}", h, base)); } else { o(out, "ok", String::new()); }
+        // junk: trailing any of ~-,?; ; leading any of ~-,?; or one '.'
+        let mut j = b.clone();
+        for _ in 0..(1 + rng.below(2)) { j.push(rng.pick(JUNK)); }
+        if cls(&j, ua) != base { o(out, "junk-trailing", format!("{} {} vs {}", hex(&j), cls(&j, ua), base)); } else { o(out, "ok", String::new()); }
+        let mut j2: Vec<u8> = vec![];
+        if rng.chance(1, 2) { j2.push(b'.'); } else { for _ in 0..(1 + rng.below(2)) { j2.push(rng.pick(JUNK)); } }
+        j2.extend(&b);
+        if cls(&j2, ua) != base { o(out, "junk-leading", format!("{} {} vs {}", hex(&j2), cls(&j2, ua), base)); } else { o(out, "ok", String::new()); }
+        // one compression suffix: same kind, container set when base had none
+        for (k, a) in [("gz", "Gz"), ("GZIP", "Gz"), ("bz2", "Bz2"), ("xz", "Xz"), ("xzip", "Xz"), ("lz4", "Lz4")] {
+            let mut n2 = b.clone(); n2.push(b'.'); n2.extend(k.as_bytes());
+            let r = cls(&n2, ua);
+            let expect = if base == "Unparsable" { base.clone() }
+                else if base.ends_with(" Normal") { format!("{} {}", &base[..base.len() - 7], a) }
+                else { base.clone() };
+            if r != expect { o(out, "compress", format!("{} +.{} {} expected {}", h, k, r, expect)); } else { o(out, "ok", String::new()); }
+        }
+        // type word in suffix position decides
+        for (w, e) in [("log", "Text Normal"), ("TXT", "Text Normal"), ("utmp", "Fixed Utmp Normal"), ("wtmpx", "Fixed Utmpx Normal"),
+                       ("btmp", "Fixed Utmp Normal"), ("lastlog", "Fixed Lastlog Normal"), ("lastlogx", "Fixed Lastlogx Normal"),
+                       ("acct", "Fixed Acct Normal"), ("pacct", "Fixed AcctV3 Normal"), ("journal", "Journal Normal"), ("Evtx", "Evtx Normal")] {
+            let mut n2 = b.clone(); n2.push(b'.'); n2.extend(w.as_bytes());
+            let r = cls(&n2, ua);
+            if r != e { o(out, "type-word", format!("{} +.{} {} expected {}", h, w, r, e)); } else { o(out, "ok", String::new()); }
+            // ... and survives a rotation + compression suffix
+            n2.extend(b".2.gz");
+            let r2 = cls(&n2, ua);
+            let e2 = format!("{} Gz", &e[..e.len() - 7]);
+            if r2 != e2 { o(out, "type-word-rot-gz", format!("{} {} expected {}", hex(&n2), r2, e2)); } else { o(out, "ok", String::new()); }
+        }
+    }
+    // default text: stems with no recognised word
+    for s in ["a", "foo", "README", "x86", "host1", "hello world", "日本語"] {
+        let r = cls(s.as_bytes(), false);
+        if r != "Text Normal" { o(out, "default-text", format!("{} {}", s, r)); } else { o(out, "ok", String::new()); }
+    }
+}
+
+pub fn replay_line(req: &str) -> String {
+    let w: Vec<&str> = req.split_whitespace().collect();
+    if w.len() != 4 || w[0] != "path" || w[1] != "cls" { return "bad-op".to_string(); }
+    let name = unhex(w[2]);
+    let ua = w[3] == "1";
+    let r0 = classify_impl(&name, ua, false);
+    let r1 = classify_impl(&name, ua, true);
+    if r0 == r1 || matches!(&name[..], b"" | b"." | b"..") { r0 } else { format!("dir-dependent {} | {}", r0, r1) }
+}
